@@ -14,9 +14,10 @@ import Driver.GrammarOps
 import Driver.UpdateOps
 import Driver.GenerateOps
 import Driver.TestRunOps
+import Driver.EnvOps
 /-! Line-protocol driver: one operation per input line, one canonical line out. -/
 namespace Driver
-open Driver.CramOps Driver.MarkdownOps Driver.EscOps Driver.RulesOps Driver.YamlOps Driver.TplOps Driver.PrettyOps Driver.GrammarOps Driver.UpdateOps Driver.GenerateOps Driver.TestRunOps
+open Driver.CramOps Driver.MarkdownOps Driver.EscOps Driver.RulesOps Driver.YamlOps Driver.TplOps Driver.PrettyOps Driver.GrammarOps Driver.UpdateOps Driver.GenerateOps Driver.TestRunOps Driver.EnvOps
 
 def step (line : String) : String :=
   match line.trimAscii.toString.splitOn " " with
@@ -29,6 +30,8 @@ def step (line : String) : String :=
   | "dcwd" :: args => opDcWd args
   | "effective" :: args => opEffective args
   | "namer" :: args => opNamer args
+  | "envrun" :: args => opEnvRun args
+  | "envapi" :: args => opEnvApi args
   | "shvars" :: args => opShVars args
   | "md" :: args => opMd args
   | "durfmt" :: args => opDurFmt args
